@@ -25,6 +25,7 @@ func propC08(r *Report, tier string) {
 	ruleParallelSlotsUpdatedTogether(r, "K14-parallel-slots", "search/searcher", "NestedConjunctionSearcher", "currs", []string{"currAncestors", "currKeys"})
 	ruleExhaustionSticky(r, "K6-exhaustion-sticky")
 	ruleHeapRestoredBeforePeek(r, "K5-heap-restored-before-peek")
+	rulePivotFixedDuringAlignment(r, "K14-pivot-fixed-during-alignment")
 	in := findIntroducers(r.P)
 	ruleOffsetsAlignment(r, "K14-offsets-alignment", snapshotConstructors(r, in))
 	r.Floor("K13-searcher-methods", 10)
